@@ -64,6 +64,11 @@ LEVEL = {
         "design_ref": "5.19", "note": "token pools are finite lists chosen by the harness; resource-bounded vectors are skipped and counted",
         "technique": "property-based testing (rapid) with a round-trip oracle over a request battery",
     },
+    "C10": {
+        "text": "Randomised differential testing of the served mapping against an independent parser of generated lease files (every MAC/IP spelling, duplicates, one of each malformation), fault sequences of good/malformed rewrites under autorefresh with an old-or-new / single-switch-point oracle, and dual-stack configurations.",
+        "design_ref": "5.10", "note": "'eventually' is a 30 s deadline with a second file event; atomicity is judged from time-ordered lookups",
+        "technique": "property-based differential testing (rapid) against an independent file parser + fault-sequence generation for autorefresh",
+    },
 }
 
 NOT_APPLICABLE = [
@@ -78,6 +83,8 @@ ENGINES = [
      "kind_free_text": "DHCPv4 request/restart histories through rangeplugin.Plugin.Setup4 on sqlite files, reference lease table, crash-point copies"},
     {"name": "opts", "path": "harness/opts", "serves_properties": ["C14", "C17", "C19"],
      "kind_free_text": "direct calls of the handlers returned by each Plugin.Setup4/Setup6 with wire-built requests; decision-table enumeration, independent option encoders, round-trip oracle"},
+    {"name": "static", "path": "harness/static", "serves_properties": ["C10"],
+     "kind_free_text": "lease files from a grammar through file.Plugin.Setup4/Setup6, independent parser as model, autorefresh rewrite sequences, dual-stack"},
     {"name": "pd6", "path": "harness/pd6", "serves_properties": ["C08", "C09"],
      "kind_free_text": "DHCPv6 prefix-delegation message histories (wire-built requests) through prefix.Plugin.Setup6 against an owner table and held sets"},
 ]
